@@ -485,6 +485,23 @@ def _check_links(ck: Checker) -> None:
                    "a reported 'unused link' is not a key drawn from the link table",
                    construct=f"{n.text()} / provenance")
 
+    # the path looked up in `used` is spelled like the caller's paths: join(self.root_dir, key) with the root exactly
+    # as configured (set_link stores relpath(path, self.root_dir)); a normalised / resolved root changes the spelling
+    from ..prov import expand_txt
+
+    uparam = "used" if fn.has_param("used") else fn.pos_params[1]
+    n_in = 0
+    for t in g.nodes.values():
+        e = t.ast
+        if t.kind == "test" and isinstance(e, ast.Compare) and len(e.ops) == 1 and isinstance(e.ops[0], (ast.In, ast.NotIn)) and norm(e.comparators[0]) == uparam:
+            n_in += 1
+            alts = expand_txt(prog, fn, e.left)
+            okp = bool(alts) and all(a.startswith(("os.path.join(self.root_dir, ", "fs.join(self.root_dir, ", "fs.path.join(self.root_dir, ")) for a in alts)
+            ck.require(okp, "C05.links", fn, t, "the path compared with the caller's used paths is join(self.root_dir, key)",
+                       f"the path compared with the caller's `used` paths is {alts}: it is not join(self.root_dir, key) with the root as configured (e.g. a resolved root), so when the workspace is reached through a symlink the spelling differs from the caller's and links that are in use are reported unused and deleted",
+                       construct=f"{norm(e)} / spelling")
+    ck.floor("C05.links", n_in, 1, "membership tests against the used paths in get_unused_links")
+
     rm = prog.func("hashfile.state", "State.remove_links")
     g2 = ck.cfg(rm)
     nrm = 0
